@@ -17,6 +17,8 @@
 //!   baa    p= ell= x=<u32…> y=<u32…>
 //!   add | sub | neg | addccc  [be=] p= x= y=     add_bbb_ref / NttAdd, NttSub, NttNegate / add_ccc_ref
 //!   addas | subas | subneg | negas  [be=] x= y=  the in-place trait forms (res = x)
+//!   ntt | intt  p= [be=] n= x=<4n u64>   ntt_ref / intt_ref with a fresh NttTable(Inv)::new(n) (be=ref|avx: NttDFTExecute)
+//!   tab p= n=                            bit sizes, level metadata and the whole powomega array of both tables
 //!   spm inp= po= h= mask= | red x= h= mask= cst= | pow x= n= q=      split_precompmul, modq_red, modq_pow
 //!   pipe be=<ref|avx> a= b=<i64,…>       HAL at n = 1 (transforms are the identity there):
 //!                                        svp_prepare(a); dft_apply(b); svp_apply_dft_to_dft; idft_apply → i128 per b
@@ -36,7 +38,8 @@ use poulpy_cpu_ref::reference::ntt120::{
         BaaMeta, BbbMeta, BbcMeta, vec_mat1col_product_baa_ref, vec_mat1col_product_bbb_ref, vec_mat1col_product_bbc_ref,
         vec_mat1col_product_x2_bbc_ref, vec_mat2cols_product_x2_bbc_ref,
     },
-    ntt::{NttTable, modq_pow, modq_red, split_precompmul},
+    NttDFTExecute,
+    ntt::{NttStepMeta, NttTable, NttTableInv, intt_ref, modq_pow, modq_red, ntt_ref, split_precompmul},
     primes::{PrimeSet, Primes29, Primes30, Primes31},
     types::Q_SHIFTED,
 };
@@ -110,8 +113,43 @@ fn consts<P: PrimeSet>(is30: bool) -> String {
     s
 }
 
+fn tab<P: PrimeSet>(n: usize) -> String {
+    let f = NttTable::<P>::new(n);
+    let i = NttTableInv::<P>::new(n);
+    let lv = |m: &Vec<NttStepMeta>| {
+        if m.is_empty() {
+            "-".to_string()
+        } else {
+            m.iter().map(|x| format!("{}:{}:{}:{}:{}", x.bs, x.half_bs, x.mask, x.reduce as u8, join(&x.q2bs))).collect::<Vec<_>>().join("|")
+        }
+    };
+    format!(
+        "fwd={}/{} {} {} inv={}/{} {} {}",
+        f.input_bit_size,
+        f.output_bit_size,
+        lv(&f.level_metadata),
+        join(&f.powomega),
+        i.input_bit_size,
+        i.output_bit_size,
+        lv(&i.level_metadata),
+        join(&i.powomega)
+    )
+}
+
 fn generic<P: PrimeSet>(op: &str, t: &[&str]) -> String {
     match op {
+        "ntt" => {
+            let mut x: Vec<u64> = list(t, "x");
+            let tb = NttTable::<P>::new(num(t, "n"));
+            ntt_ref::<P>(&tb, &mut x);
+            join(&x)
+        }
+        "intt" => {
+            let mut x: Vec<u64> = list(t, "x");
+            let tb = NttTableInv::<P>::new(num(t, "n"));
+            intt_ref::<P>(&tb, &mut x);
+            join(&x)
+        }
         "bfrom" => {
             let x: Vec<i64> = list(t, "x");
             let mut r = vec![0u64; 4 * x.len()];
@@ -199,6 +237,18 @@ macro_rules! via_trait {
         fn $fname(op: &str, t: &[&str]) -> String {
             type BE = $be;
             match op {
+                "ntt" => {
+                    let mut x: Vec<u64> = list(t, "x");
+                    let tb = NttTable::<Primes30>::new(num(t, "n"));
+                    <BE as NttDFTExecute<NttTable<Primes30>>>::ntt_dft_execute(&tb, &mut x);
+                    join(&x)
+                }
+                "intt" => {
+                    let mut x: Vec<u64> = list(t, "x");
+                    let tb = NttTableInv::<Primes30>::new(num(t, "n"));
+                    <BE as NttDFTExecute<NttTableInv<Primes30>>>::ntt_dft_execute(&tb, &mut x);
+                    join(&x)
+                }
                 "bfrom" => {
                     let x: Vec<i64> = list(t, "x");
                     let mut r = vec![0u64; 4 * x.len()];
@@ -328,15 +378,11 @@ fn dispatch(op: &str, t: &[&str]) -> String {
             Some("31") => consts::<Primes31>(false),
             _ => consts::<Primes30>(true),
         },
-        "tab" => {
-            let n: usize = num(t, "n");
-            let f = NttTable::<Primes30>::new(n);
-            let i = poulpy_cpu_ref::reference::ntt120::ntt::NttTableInv::<Primes30>::new(n);
-            let lv = |m: &Vec<poulpy_cpu_ref::reference::ntt120::ntt::NttStepMeta>| {
-                m.iter().map(|x| format!("{}:{}:{}:{}:{}", x.bs, x.half_bs, x.mask, x.reduce as u8, join(&x.q2bs))).collect::<Vec<_>>().join("|")
-            };
-            format!("fwd={}/{} {} inv={}/{} {}", f.input_bit_size, f.output_bit_size, lv(&f.level_metadata), i.input_bit_size, i.output_bit_size, lv(&i.level_metadata))
-        }
+        "tab" => match kv(t, "p") {
+            Some("29") => tab::<Primes29>(num(t, "n")),
+            Some("31") => tab::<Primes31>(num(t, "n")),
+            _ => tab::<Primes30>(num(t, "n")),
+        },
         "spm" => split_precompmul(num(t, "inp"), num(t, "po"), num(t, "h"), num(t, "mask")).to_string(),
         "red" => modq_red(num(t, "x"), num(t, "h"), num(t, "mask"), num(t, "cst")).to_string(),
         "pow" => modq_pow(num(t, "x"), num(t, "n"), num(t, "q")).to_string(),
